@@ -2,7 +2,7 @@
 From Coq Require Import String.
 From Coq Require Import NArith ZArith List Arith Lia Bool.
 From Cose Require Import Lib.Base Lib.Cbor Lib.CborProofs Model.GoVal Model.CborGo Model.Wire Model.Key Model.MsgLogic Model.MsgLogicProofs Model.Nonce Model.Msg
-     Spec.RFC9052 Model.MsgProofs Model.MsgRoundTrip Model.ValueRoundTrip.
+     Spec.RFC9052 Model.MsgProofs Model.MsgRoundTrip Model.ValueRoundTrip Model.NonceProofs.
 Import ListNotations.
 Open Scope Z_scope.
 
@@ -77,6 +77,55 @@ Proof.
   exists itU. split; [reflexivity|]. split; [apply (Hsize pb tag itU E2 eq_refl)|]. split.
   - unfold fld_headers. rewrite Eu'. exact R.
   - split; [apply (headers_roundtrip prot' pb Gp E2)|]. unfold consume_gate. now rewrite (alg_gate_read_back prot' _ Gp).
+Qed.
+
+(* ---- COSE_Encrypt0: the nonce Decrypt derives from the decoded headers is the one Encrypt used *)
+Lemma derive_nonce_read_back m k n : NoDup (map fst m) -> forallb (fun e => ints_in_kind (snd e)) m = true ->
+  derive_nonce (read_back m) k n = derive_nonce m k n.
+Proof.
+  intros ND Hk. unfold derive_nonce.
+  destruct (read_back_accessors m 5 ND Hk) as [_ [H5 _]]. destruct (read_back_accessors m 6 ND Hk) as [_ [H6 _]]. now rewrite H5, H6.
+Qed.
+
+Lemma derive_ok_iv_typed u k n iv : derive_nonce u k n = Ok iv -> forall v, lookup u (ilabel 5) = Some v -> exists b, v = VBytes b.
+Proof.
+  unfold derive_nonce, get_bytes at 1. intros H v Hv. rewrite Hv in H. destruct v; try discriminate. now eexists.
+Qed.
+
+Lemma chosen_nonce_nonempty u k n d nonce u' : d <> [] -> (0 < n)%nat -> choose_nonce u k n d = Ok (nonce, u') -> nonce <> [].
+Proof.
+  intros Hd Hn H. unfold choose_nonce in H. destruct (derive_nonce u k n) as [iv| |] eqn:D; try discriminate.
+  destruct (Nat.eqb (length iv) 0) eqn:Z; inversion H; subst; [exact Hd|]. intro E. subst. discriminate.
+Qed.
+
+Theorem enc0_roundtrip_full p prot unprot payload ext draw out prot' nonce unprot' :
+  enc0_produce p prot unprot payload ext draw = Ok out ->
+  (forall nc pt ad ct, en_encrypt p nc pt ad = Ok ct -> en_decrypt p nc ct ad = Ok pt) ->
+  prepare_protected prot (en_key p) = Ok prot' -> alg_gate prot' (key_alg (en_key p)) = true ->
+  choose_nonce (prepare_unprotected unprot (en_key p)) (en_key p) (en_nonce p) draw = Ok (nonce, unprot') ->
+  draw <> [] -> (0 < en_nonce p)%nat ->
+  good_map prot' -> good_map unprot' ->
+  (forall pb ct itU, headers_bytes prot' = Some pb -> item_of (VMap unprot') = Some itU ->
+      encodable (IArr [ob (Some pb); itU; ob (Some ct)]) = true) ->
+  enc0_consume false p out ext
+  = Ok {| v_prot := read_back prot'; v_unprot := Some (read_back unprot'); v_payload := payload_view (match payload with Some b => b | None => [] end) |}.
+Proof.
+  intros Hp Hprim Epp Hgate Ech Hd Hn Gp Gu Hsize.
+  apply (enc0_roundtrip p prot unprot payload ext draw out (read_back prot') (read_back unprot') Hp Hprim).
+  intros prot'' pb nonce' um ct u E1 E2 E3 E4. rewrite Epp in E1. inversion E1; subst prot''.
+  rewrite Ech in E3. inversion E3; subst nonce' um. clear E3.
+  destruct Gu as [Hc [Hh [ND [Hk He]]]].
+  pose proof (cosemap_roundtrip unprot' u Hc Hh E4 He) as R.
+  assert (Eu := E4). unfold enc_cosemap in Eu. rewrite (check_labels_id unprot' Hc) in Eu. destruct (labels_dup unprot'); [discriminate|].
+  unfold marshal_any in Eu. destruct (item_of (VMap unprot')) as [itU|] eqn:Ei; [|discriminate]. cbn [option_map] in Eu. inversion Eu as [Eu'].
+  exists itU. split; [reflexivity|]. split; [apply (Hsize pb ct itU E2 eq_refl)|]. split; [unfold fld_headers; rewrite Eu'; exact R|].
+  split; [apply (headers_roundtrip prot' pb Gp E2)|]. split; [unfold consume_gate; now rewrite (alg_gate_read_back prot' _ Gp)|].
+  rewrite (derive_nonce_read_back unprot' _ _ ND Hk).
+  apply (decrypt_same_nonce (prepare_unprotected unprot (en_key p)) (en_key p) (en_nonce p) draw nonce unprot').
+  - exact (chosen_nonce_nonempty _ _ _ _ _ _ Hd Hn Ech).
+  - unfold choose_nonce in Ech. destruct (derive_nonce (prepare_unprotected unprot (en_key p)) (en_key p) (en_nonce p)) as [iv| |] eqn:D; try discriminate.
+    exact (derive_ok_iv_typed _ _ _ _ D).
+  - exact Ech.
 Qed.
 
 (* the gate hypothesis is what producing established *)
